@@ -396,7 +396,7 @@ def judge_attempt(prog, table, att):
 
 
 def run_scripted(ctx):
-    nprog = ctx.n(100, 2500)
+    nprog = ctx.n(80, 2500)
     cases, metas = [], []
     for k in range(nprog):
         dyadic = ctx.rng.random() < 0.5
@@ -584,7 +584,7 @@ def probe_propagate(ctx, prog):
 
 def run_statistics(ctx):
     nprog = ctx.n(6, 60)
-    nsamp = ctx.n(1000, 20000)
+    nsamp = ctx.n(800, 20000)
     nprop = ctx.n(6, 40)
     progs = []
     tries = 0
